@@ -21,7 +21,7 @@ CLAIMS = {
     "C10": dict(
         text="Weakest level (gate only): rejection is total (every yield/return of parse dominated by 'whole text consumed' and 'finished start item'), the "
         "start symbol handed to chart_parse has a single alternative (auxiliary start symbol for grammars with several start alternatives), coalescing merges "
-        "only adjacent terminals, the nullable set is the recognised least fixed point, and ISLaSolver.parse's plumbing (the parser runs exactly once, on the argument string itself). Does NOT decide correctness of the Earley chart.",
+        "only adjacent terminals, the nullable set is the recognised least fixed point, and ISLaSolver.parse's plumbing (the parser runs exactly once, on the argument string itself). Does NOT decide correctness of the Earley chart. The three Earley operations, the chart driver and the item operations have their textbook shape (recognised wrong shapes are violations, anything else an analysis error).",
         note="Trusted: chart construction and forest extraction.",
         technique=TECH + "gate dominance via path facts, arity invariant of star-unpacked alternatives",
         design="5/C10",
@@ -30,7 +30,7 @@ CLAIMS = {
         text="Decides the escape layer of the BNF round trip: writer table and reader algorithm constant-folded from source and shown mutually inverse on all 256 "
         "single characters and on all ordered pairs over a hazard alphabet (cross-boundary matches of sequential replace), lexer-significant characters escaped "
         "as ESC sequences, freshness of the backslash placeholder, layout of rules/alternatives/empty alternative, and the '<' placeholder discipline. Does NOT "
-        "decide language equality per nonterminal.",
+        "decide language equality per nonterminal. Also: memoised functions that return mutable containers are not modified in place by their callers, is_nonterminal uses the tokenisation pattern, parse_bnf lexes the text as given.",
         note="Trusted: str.replace semantics, dict order, ANTLR STRING token rule.",
         technique=TECH + "constant folding of escape tables + abstract re-statement of the unescape algorithm over the folded tables",
         design="5/C11",
@@ -67,7 +67,7 @@ CLAIMS = {
     "C22": dict(
         text="Decides that within the solver's import closure every random choice comes from the user-seeded module-level generator, Z3 seeds derive from it, "
         "wall-clock values only feed the timeout bookkeeping, no builtin id()/address ordering is used, and hashed classes define value-based __hash__. Does NOT "
-        "decide Z3's internal nondeterminism under timeouts.",
+        "decide Z3's internal nondeterminism under timeouts. Dataclass-generated hashes over function-typed fields and class objects among hashed components are violations when the class is hashed as a component of a formula/state hash.",
         note="Trusted: fixed PYTHONHASHSEED as the property states; Z3 deterministic for equal seeds up to timeouts.",
         technique=TECH + "nondeterminism-source classification over the import closure, seed provenance",
         design="5/C22",
@@ -77,7 +77,7 @@ CLAIMS = {
         "bypasses the guard), coverage of the second strategy, the aggregator table (and/forall -> all, or/exists -> any, not -> not_, vacuous values), "
         "completeness of quantifier domains (path-index totality for any branching degree by interval analysis; unfiltered enumeration of sub-trie items / "
         "matches), and unnegated plumbing of atom verdicts and of ISLaSolver.check. Does NOT decide that each verdict equals the specification's for every "
-        "formula and tree, nor exceptions for particular inputs.",
+        "formula and tree, nor exceptions for particular inputs. Also: verdicts derived from a Z3 query come from validity (not from satisfiability), substitution never drops a tree quantifier (vacuous truth over empty domains), a re-declared variable keeps its declared type or is rejected, and every unmatched element of a match expression gets its own placeholder key.",
         note="Trusted: ThreeValuedTruth connectives (shape-checked in C06), predicates (C04), SMT atoms (C05).",
         technique=TECH + "dispatch exhaustiveness with caller-side guard facts, aggregator-table recognition, interval analysis of the trie key codec",
         design="5/C03",
@@ -86,7 +86,7 @@ CLAIMS = {
         text="Gate-only: decides that every definite verdict on a possibly open tree is dominated by the corresponding openness test (SMT atoms incl. the Z3 "
         "fallback; forall/exists vs. potential matches over all open leaves; falsy answers of the might-match oracle only when the nonterminal is unreachable "
         "from the leaf; semantic predicates; quantifier dropping in the second strategy), and that the three-valued connectives have Kleene's shape. "
-        "Reduces the property to correctness of grammar reachability and of the match-expression prefix oracle, which are NOT decided.",
+        "Reduces the property to correctness of grammar reachability and of the match-expression prefix oracle, which are NOT decided. Semantic-predicate bindings count as TRUE only when every bound key is a Constant (a tree binding is a proposed update).",
         note="Trusted: graph.reachable; can_extend_leaf_to_make_quantifier_match_parent; closures run after their definition site.",
         technique=TECH + "gate dominance via path facts (incl. after-exit facts and a small propositional closure), shape recognition of Kleene connectives",
         design="5/C06",
@@ -96,7 +96,7 @@ CLAIMS = {
         "classes, emitted keywords/operator spellings are lexer literals, SMT string-literal escape writer/reader pair, match-expression escape pair "
         "(violated today: known finding), freshness obligations of generated names (avoid the constant's name and earlier names), every ctx attribute a "
         "listener reads exists in the generated context classes, every labelled grammar alternative stores into its result map, every __eq__ field is "
-        "printed. Does NOT decide equality/idempotence of the round trip in general.",
+        "printed. Does NOT decide equality/idempotence of the round trip in general. Also: Z3 declaration names that the reader does not accept (ITE is named 'if') are re-spelled, no Python escape codec in writers, predicate arguments are quoted exactly when they are strings (decided over the four argument kinds), De Bruijn stack of nested SMT quantifiers, Z3's own \\u{..} escapes are not decoded on output, declared variable types are respected.",
         note="Trusted: generated parser in sync with the .g4 (literal names cross-checked); antlr4 runtime member names.",
         technique=TECH + "dispatch exhaustiveness over the class hierarchy, writer/reader vocabulary and escape agreement, listener-vs-generated-context API resolution, freshness obligations",
         design="5/C07",
@@ -105,7 +105,7 @@ CLAIMS = {
         text="Decides the sugar-to-core translation where it is visible in code shape: truth tables of implies/iff/xor as built by the emitter against the "
         "specification's, default `in` and free-nonterminal closure over the declared constant, S-expression templates of infix/prefix operators in source "
         "order, universal (never existential) closure, 1-based->0-based XPath index agreement between the two sites. Does NOT decide that XPath elimination "
-        "and quantifier push-in preserve meaning on every tree.",
+        "and quantifier push-in preserve meaning on every tree. Also: names bound inside a match expression count as used whether or not the quantifier is named, XPath match-expression prefixes are merged only after their symbols along the shared path were compared, a variable re-declared with another type is rejected.",
         note="Trusted: -, &, | on formulas denote not/and/or (C09 decides their duality tables).",
         technique=TECH + "truth-table normalisation of extracted propositional terms, template slot order, provenance of the in-variable",
         design="5/C08",
@@ -114,7 +114,7 @@ CLAIMS = {
         text="Decides the duality table of Formula.__neg__ and of the NNF handlers (incl. carried-over bound variable / in-variable / match expression), arity and "
         "exhaustiveness of the convert_to_nnf dispatch, arity-genericity of every rewrite over n-ary combinators, completeness of quantifier reconstruction in "
         "all rewrite functions, validity of every simplifying early return of __and__/__or__ by a 4-row truth table, and preservation of the connective in "
-        "replace/rename/DNF. Does NOT decide capture-avoidance of renaming nor DNF distribution beyond shape.",
+        "replace/rename/DNF. Does NOT decide capture-avoidance of renaming nor DNF distribution beyond shape. Also: renaming/substitution maps are applied simultaneously (no entry-by-entry fold), the duality table of z3_push_in_negations computed per (connective, negate) case by a path-sensitive interpreter, substitution never drops a quantifier, variables removed by Z3 simplification are filtered before an SMTFormula is rebuilt.",
         note="Trusted: Formula.__eq__; SMTFormula.is_true/is_false; z3_push_in_negations.",
         technique=TECH + "duality-table extraction from isinstance chains, truth-table check of guarded identities, arity-genericity lint with class narrowing facts",
         design="5/C09",
@@ -124,7 +124,7 @@ CLAIMS = {
         "accessors, no external writer), totality of the path index for any branching degree (interval reasoning of the key encoder against the folded trie "
         "alphabet, prefix-freeness, encoder/decoder constant agreement, relative-path cut), that path lookup / node search / filter / leaves / trie are all "
         "views of the pre-order paths(), the exact shape of replace_path (only the addressed child changes; ancestors keep label and id; sound is_open flags), "
-        "and id-freeness of the structural hash. Does NOT decide cached-openness arithmetic along arbitrary operation sequences.",
+        "and id-freeness of the structural hash. Does NOT decide cached-openness arithmetic along arbitrary operation sequences. Also: the key decoder resets its continuation offset per component, pairwise child comparison only after a length comparison, memoised functions never hand out freshly built tree nodes (shared ids).",
         note="Trusted: datrie's documented alphabet behaviour; child indices are non-negative; Python name mangling.",
         technique=TECH + "who-may-write ownership analysis over mangled private fields, constant folding + interval analysis of the trie key codec, normalised-shape recognition",
         design="5/C16",
@@ -134,7 +134,7 @@ CLAIMS = {
         "on every node and re-created by the reader, that the quote escape of smt_expr_to_str is undone by every reader before z3.parse_smt2_string and no "
         "reader replace() is a no-op, that __setstate__ only reads keys __init__ provides, that the CLI JSON writer/reader are inverse incl. None-vs-[] "
         "children, and that every text handed to z3.parse_smt2_string has its non-ASCII characters escaped and every as_string() result is unescaped (sanitiser flow). "
-        "Known finding: the escape character itself is not escaped. Does NOT decide equality of the round trip for every string.",
+        "Known finding: the escape character itself is not escaped. Does NOT decide equality of the round trip for every string. Also: De Bruijn stack order in smt_expr_to_str, Z3's \\u{..} escapes are kept on output, every per-instance field of DerivationTree is classified (identity / memo).",
         note="Trusted: SMT-LIB 2.6 string-literal syntax in z3.parse_smt2_string; json module.",
         technique=TECH + "effect/alias analysis (serializer purity), writer/reader escape-pair agreement by constant folding, field coverage",
         design="5/C17",
@@ -169,7 +169,7 @@ CLAIMS = {
     "C15": dict(
         text="Decides that 'not recognised' (Nothing) can never be turned into a positive match (no truthy thunk defaults in boolean positions), that the "
         "partial(handler, fallback) chain is acyclic, complete, correctly typed and ends in Nothing, and that compress_concatenation_elements only emits "
-        "elements of the current group under the star/plus guards, interval merging keeps the larger upper bound, and the interval cache key is not a lossy rendering. Does NOT decide exactness of interval bounds.",
+        "elements of the current group under the star/plus guards, interval merging keeps the larger upper bound, and the interval cache key is not a lossy rendering. Does NOT decide exactness of interval bounds. Known finding: Star/Plus of [0-9] is given (-inf, inf) instead of [0, inf) (fixed by a pinned doctest).",
         note="Trusted: returns.Maybe.value_or semantics; z3 regex operator kinds.",
         technique=TECH + "API-misuse lint tied to the property (value_or thunk), handler-chain wiring analysis, provenance of result elements",
         design="5/C15",
@@ -186,7 +186,7 @@ CLAIMS = {
         text="Decides structural necessary conditions of 'ISLa's fast path answers as Z3 does and never raises instead': dispatch-table arity "
         "(operators without a Python case reach Z3), every consumer falls back to Z3 with the right verdict mapping, no escaping "
         "IndexError/ZeroDivisionError/TypeError/negative-index wraparound in any constructor, regex-fragment grouping/escaping/anchoring, and "
-        "guard-vs-body operator agreement against the SMT-LIB operator table. Does NOT decide numeric agreement with Z3 for every value.",
+        "guard-vs-body operator agreement against the SMT-LIB operator table. Does NOT decide numeric agreement with Z3 for every value. Also: parameters of Z3 declarations are indexed only under a length fact (optional upper bound of re.loop), loop bounds are ordered and rendered per parameter count, TRUE only from `not f` unsat, child closures receive their own parameters by name; taint is propagated through tuple unpacking and single indices need both bounds. Known finding: str.to.int gives signed numerals their value where Z3 yields -1.",
         note="Trusted: Z3 is the reference; SMT-LIB arities; Python's re semantics for grouped fragments; asserts are developer contracts.",
         technique=TECH + "dispatch-table arity/guard analysis, may-raise effects with path facts, regex-fragment category typing, operator table agreement",
         design="5/C05",
